@@ -2,6 +2,8 @@
 package main
 
 import (
+	"os"
+
 	"verifh/luagen"
 	"verifh/luaprop"
 )
@@ -14,13 +16,22 @@ func main() {
 		Rule: "generated programs dominated by metatable shapes: __index/__newindex through tables and functions, arithmetic/concat handlers with the object on the left, right or both sides, " +
 			"__eq/__lt/__le (with and without __le), __call/__unm/__tostring/__metatable, rawget/rawset/rawequal; handlers log their operands through emit; traces compared with the reference evaluator; " +
 			"non-trivial = at least 5 emitted rows or an error outcome; distinct by Gallina term",
-		Modes:     []luaprop.Mode{{Name: "meta", Features: f, Weight: 1}},
+		Modes:     modes(f),
 		NQuick:    400,
 		NThorough: 2500,
 		Corpus:    append(corpus, corpusW5...),
 		Extra:     metaExtra,
 		VM:        true,
 	})
+}
+
+// modes: the feature-driven mix, and (wave 5) small stand-alone programs made of the raw-operation
+// matrix, the chain-depth boundary and the userdata event matrix (luagen/shapes_w5_c04.go).
+func modes(f luagen.Features) []luaprop.Mode {
+	if os.Getenv("C04_DEV_W5ONLY") != "" { // development aid: only the wave-5 mode
+		return []luaprop.Mode{{Name: "w5focus", Features: f, Weight: 1, Gen: luagen.W5MetaC04Program}}
+	}
+	return []luaprop.Mode{{Name: "meta", Features: f, Weight: 80}, {Name: "w5focus", Features: f, Weight: 20, Gen: luagen.W5MetaC04Program}}
 }
 
 var corpus = []string{
